@@ -257,7 +257,9 @@ let int64_of_n_cmp (x : n) : string = Printf.sprintf "%020s" (string_of_n x)
 let do_img (rest : string) : string =
   match split_on '|' rest with
   | [cfg; files; ops] ->
-    let d = List.sort (fun a b -> compare (int64_of_n_cmp a.f_id) (int64_of_n_cmp b.f_id)) (List.map p_file (toks files)) in
+    (* a LOCK:... token is the lock file left by the crashed owner: its content means nothing *)
+    let ftoks = List.filter (fun t -> not (String.length t >= 5 && String.sub t 0 5 = "LOCK:")) (toks files) in
+    let d = List.sort (fun a b -> compare (int64_of_n_cmp a.f_id) (int64_of_n_cmp b.f_id)) (List.map p_file ftoks) in
     (match open_dir (p_cfg (toks cfg)) d with
      | OpenOk y -> run_xops (Some y) ["opened"] (parse_ops ops)
      | OpenErr (e, d') -> "openerr " ^ str_kind (err_kind e) ^ " ; " ^ str_disk d')
